@@ -238,7 +238,7 @@ def quartile(ctx, r, F):
         i = ("bin", "Sub", ("bin", "Sub", ("len", ("ref", data)), C(1)), ("bin", "Div", P(2), C(4)))
         i2 = ("bin", "Sub", ("bin", "Sub", ln, C(1)), ("bin", "Div", P(2), C(4)))
         sh = binop("Mul", ("bin", "Rem", P(2), C(4)), C(2))
-        wants = [binop("BitAnd", ("bin", "Shr", ("load", ("index", data, ix)), sh), C(3)) for ix in (i, i2)]
+        wants = [n(binop("BitAnd", ("bin", "Shr", ("load", ("index", data, ix)), sh), C(3))) for ix in (i, i2)]
         ok = len(rets) == 1 and n(rets[0].ret) in wants
         gate = [(n(d), (taken == "otherwise") if vals == [0] else bool(taken)) for (_, d, taken, vals) in rets[0].conds] if rets else None
         okg = gate == [(("bin", "Lt", P(2), C(nb)), True)] and nb == 4 * size and len(div) == 1
